@@ -1338,6 +1338,12 @@ fn fixed_scenarios(mut id: u64, thorough: bool) -> Vec<Value> {
 ///   front: the endpoint is an H2 client: stream 1 downloads `big` bytes (not read during the hold), stream 2 uploads
 ///   back : the endpoint is an h2c backend: it answers stream 1 early and stops reading the `big` upload
 fn duplex_scenario(id: u64, label: &str, back: bool, front: &str, big: i64, small: i64, max_frame: i64, rcvbuf: i64, hold: Value, await_bytes: i64) -> Value {
+    duplex_scenario_split(id, label, back, front, big, small, max_frame, rcvbuf, hold, await_bytes, 0)
+}
+
+/// `split_hdr` > 0: what the endpoint uploads after the hold goes out with frame headers split in two writes
+#[allow(clippy::too_many_arguments)]
+fn duplex_scenario_split(id: u64, label: &str, back: bool, front: &str, big: i64, small: i64, max_frame: i64, rcvbuf: i64, hold: Value, await_bytes: i64, split_hdr: i64) -> Value {
     let mut ops: Vec<Value> = vec![json!({"op": "settings", "initWin": 1 << 30, "maxFrame": max_frame, "maxStreams": 100}), json!({"op": "wu", "slot": 0, "n": 1 << 30})];
     let streams;
     if back {
@@ -1358,30 +1364,36 @@ fn duplex_scenario(id: u64, label: &str, back: bool, front: &str, big: i64, smal
     ops.push(json!({"op": "finish", "mode": "eager"}));
     json!({"id": id, "kind": if back { "back" } else { "front" }, "front": front, "listener": if back && front == "h1" { "h1" } else { "tls" }, "label": label, "streams": streams,
            "strict_close": true,
-           "peer": {"ops": ops, "pad": 0, "rcvbuf": rcvbuf, "up_chunk": 16_384}, "driver": {"up_chunk": 16_384}, "deadline_ms": 120_000})
+           "peer": {"ops": ops, "pad": 0, "rcvbuf": rcvbuf, "up_chunk": 16_384, "split_hdr": split_hdr, "split_ms": 15}, "driver": {"up_chunk": 16_384}, "deadline_ms": 120_000})
 }
 
 fn duplex_scenarios(mut id: u64, r: &mut StdRng, nrandom: usize) -> Vec<Value> {
     let mut v = Vec::new();
-    let mut add = |label: &str, back: bool, front: &str, hold: Value, v: &mut Vec<Value>| {
+    let mut add_split = |label: &str, back: bool, front: &str, small: i64, hold: Value, split: i64, v: &mut Vec<Value>| {
         id += 1;
-        v.push(duplex_scenario(id, label, back, front, 6_000_000, 48_000, 16_384, 131_072, hold, 100_000));
+        v.push(duplex_scenario_split(id, label, back, front, 6_000_000, small, 16_384, 131_072, hold, 100_000, split));
     };
     // DATA from the endpoint while sozu is blocked: WINDOW_UPDATEs become due inside the half-written frame
-    add("fixed:front:duplex-data", false, "h2", json!({"ms": 600, "every_ms": 40, "data": 3_000, "max": 40_000}), &mut v);
-    add("fixed:back:duplex-data-h1", true, "h1", json!({"ms": 600, "every_ms": 40, "data": 3_000, "max": 40_000}), &mut v);
-    add("fixed:back:duplex-data-h2", true, "h2", json!({"ms": 600, "every_ms": 40, "data": 2_000, "max": 30_000}), &mut v);
+    add_split("fixed:front:duplex-data", false, "h2", 48_000, json!({"ms": 600, "every_ms": 40, "data": 3_000, "max": 40_000}), 0, &mut v);
+    add_split("fixed:back:duplex-data-h1", true, "h1", 48_000, json!({"ms": 600, "every_ms": 40, "data": 3_000, "max": 40_000}), 0, &mut v);
+    add_split("fixed:back:duplex-data-h2", true, "h2", 48_000, json!({"ms": 600, "every_ms": 40, "data": 2_000, "max": 30_000}), 0, &mut v);
     // ... then PING and SETTINGS (their answers wait in the zero buffer, reads stop until it is flushed)
-    add("fixed:front:duplex-data-ping-settings", false, "h2", json!({"ms": 700, "every_ms": 30, "data": 2_000, "max": 30_000,
-        "events": [{"at_ms": 450, "op": "ping"}, {"at_ms": 520, "op": "settings", "maxFrame": 32_768}]}), &mut v);
-    add("fixed:back:duplex-data-ping-settings", true, "h1", json!({"ms": 700, "every_ms": 30, "data": 2_000, "max": 30_000,
-        "events": [{"at_ms": 450, "op": "ping"}, {"at_ms": 520, "op": "settings", "initWin": 1 << 20}]}), &mut v);
+    add_split("fixed:front:duplex-data-ping-settings", false, "h2", 48_000, json!({"ms": 700, "every_ms": 30, "data": 2_000, "max": 30_000,
+        "events": [{"at_ms": 450, "op": "ping"}, {"at_ms": 520, "op": "settings", "maxFrame": 32_768}]}), 0, &mut v);
+    add_split("fixed:back:duplex-data-ping-settings", true, "h1", 48_000, json!({"ms": 700, "every_ms": 30, "data": 2_000, "max": 30_000,
+        "events": [{"at_ms": 450, "op": "ping"}, {"at_ms": 520, "op": "settings", "initWin": 1 << 20}]}), 0, &mut v);
     // ... PING first: the deferred answer parks the reads, the DATA behind it is read after the frame boundary
-    add("fixed:front:duplex-ping-data", false, "h2", json!({"ms": 600, "every_ms": 40, "first_ms": 380, "data": 3_000, "max": 20_000,
-        "events": [{"at_ms": 350, "op": "ping"}]}), &mut v);
+    add_split("fixed:front:duplex-ping-data", false, "h2", 48_000, json!({"ms": 600, "every_ms": 40, "first_ms": 380, "data": 3_000, "max": 20_000,
+        "events": [{"at_ms": 350, "op": "ping"}]}), 0, &mut v);
+    // ... an answer deferred during the hold, and afterwards frame headers that arrive in two pieces: between the pieces
+    // the zero buffer holds RECEIVED bytes - nothing may flush it (known finding zero-buffer-echo, C15)
+    add_split("fixed:front:duplex-ping-then-split-headers", false, "h2", 200_000,
+        json!({"ms": 600, "every_ms": 40, "data": 3_000, "max": 20_000, "events": [{"at_ms": 420, "op": "ping"}]}), 4, &mut v);
+    add_split("fixed:back:duplex-ping-then-split-headers", true, "h1", 200_000,
+        json!({"ms": 600, "every_ms": 40, "data": 3_000, "max": 20_000, "events": [{"at_ms": 420, "op": "ping"}]}), 5, &mut v);
     // ... an illegal WINDOW_UPDATE (increment 0) on the uploading stream: sozu owes RST_STREAM, on a frame boundary
-    add("fixed:front:duplex-data-rst", false, "h2", json!({"ms": 650, "every_ms": 40, "data": 3_000, "max": 24_000,
-        "events": [{"at_ms": 420, "op": "wu", "slot": 2, "n": 0, "stop_data": true}]}), &mut v);
+    add_split("fixed:front:duplex-data-rst", false, "h2", 48_000, json!({"ms": 650, "every_ms": 40, "data": 3_000, "max": 24_000,
+        "events": [{"at_ms": 420, "op": "wu", "slot": 2, "n": 0, "stop_data": true}]}), 0, &mut v);
     // frames of an upload split inside the next frame header (any TCP segment boundary can fall there)
     for (label, kind, k) in [("fixed:front:split-header-upload", "front", 4i64), ("fixed:back:split-header-response", "back", 5)] {
         id += 1;
